@@ -25,7 +25,7 @@ sys.path.insert(0, os.path.dirname(os.path.dirname(os.path.abspath(__file__))))
 from simkit import driver  # noqa: E402
 from simkit.driver import bump, new_result, shrink_list  # noqa: E402
 from simkit.rng import Rng, digest  # noqa: E402
-from simkit.threads import SimLock, SimThreads  # noqa: E402
+from simkit.threads import SimLock, SimThreads, restore_locks, simulate_locks  # noqa: E402
 
 import liquid.utils.lru_cache as lru_mod  # noqa: E402
 
@@ -325,6 +325,11 @@ class C24:
             cls = rng.choice(["LRUCache", "ThreadSafeLRUCache"])
             nops = rng.randint(1, 60)
             ops = [self._gen_op(rng, nkeys, ("s", i)) for i in range(nops)]
+            for i in range(len(ops)):
+                if rng.chance(0.06):
+                    # other dict-style ways to insert, should the class have (or grow) them: whatever
+                    # their recency rule, the map stays bounded and a present key keeps its value
+                    ops[i] = [rng.choice(["x:setdefault", "x:update"]), rng.randrange(nkeys), "vx.%d" % i]
             return {"config": "seq", "cls": cls, "capacity": cap, "ops": ops,
                     "key_style": rng.choice(sorted(KEY_STYLES)),
                     "values": "finalizing" if rng.chance(0.15) else "plain",
@@ -407,15 +412,18 @@ class C24:
         saved_lock = lru_mod.Lock
         lru_mod.Lock = SimLock
         SimLock.sim = None
+        self._seq_undo = []
         try:
             return self._run_seq_body(sc, res, st, cls, cap, log)
         finally:
             lru_mod.Lock = saved_lock
+            restore_locks(self._seq_undo)
 
     def _run_seq_body(self, sc, res, st, cls, cap, log):
         try:
             cache = cls(cap)
             _KEYS["cache"] = cache
+            self._seq_undo = simulate_locks(cache)
             ctor = ("ok", None)
         except ValueError:
             ctor = ("err", "ValueError")
@@ -434,6 +442,30 @@ class C24:
         model = ModelLRU(cap)
         evicted = False
         for i, op in enumerate(sc["ops"]):
+            if op[0].startswith("x:"):
+                meth = getattr(cache, op[0][2:], None)
+                if meth is None:
+                    continue        # the class has no such method (true of the current code)
+                bump(st, "seq.extra_mutator." + op[0][2:])
+                present = model._find(op[1])
+                try:
+                    ret = meth(mk(op[1]), op[2]) if op[0] == "x:setdefault" else meth({mk(op[1]): op[2]})
+                    n = len(cache)
+                    now = lbl(cache.get(mk(op[1])))
+                except Exception as e:  # noqa: BLE001
+                    res["violations"].append({"oracle": "seq.result", "sig": f"seq:{sc['cls']}:{op[0]}:raised",
+                                              "detail": {"step": i, "op": op, "raised": type(e).__name__}})
+                    break
+                want_now = model.items[present][1] if (present >= 0 and op[0] == "x:setdefault") else op[2]
+                if n > cap or now != want_now:
+                    res["violations"].append({"oracle": "seq.capacity" if n > cap else "seq.result",
+                                              "sig": f"seq:{sc['cls']}:{op[0]}:{'capacity' if n > cap else 'value'}",
+                                              "detail": {"step": i, "op": op, "len": n, "capacity": cap, "value_now": now,
+                                                         "want": want_now, "returned": lbl(ret)}})
+                    break
+                # recency rule of such a method is the implementation's business: adopt its contents
+                model.items = [(unk(k), lbl(v)) for k, v in cache.items()]
+                continue
             before = len(model.items)
             present = len(op) > 1 and model._find(op[1]) >= 0
             res["states"].append(int(digest((sc["cls"], cap, tuple(k for k, _ in model.items), op[0],
@@ -514,8 +546,10 @@ class C24:
         try:
             cache = lru_mod.ThreadSafeLRUCache(cap)
             _KEYS["cache"] = cache
+            undo_locks = simulate_locks(cache)     # locks created elsewhere than in __init__ (class level, import time)
             if sc.get("values") == "finalizing":
                 other = lru_mod.ThreadSafeLRUCache(2)
+                undo_locks += simulate_locks(other)
                 other[0] = "o"
                 _KEYS["other"] = other
             hist = []
@@ -610,6 +644,10 @@ class C24:
             lru_mod.Lock = saved
             SimLock.sim = None
             HK.hook = None
+            try:
+                restore_locks(undo_locks)
+            except NameError:
+                pass
 
         res["steps"] = sim.steps
         res["isig"] = digest(sim.trace)
